@@ -154,6 +154,18 @@ impl Ctx {
         self.emit(&l);
     }
 
+    /// Write-ahead copy of a violation that is about to be shrunk. Shrinking re-executes variants of the failing input;
+    /// one of them may kill the worker (allocation failure, stack overflow). The supervisor promotes a pending record
+    /// to a violation when the final record for the same case never arrives.
+    pub fn violation_pending(&mut self, key: &str, detail: Value, case: Value) {
+        if self.replay {
+            return;
+        }
+        let rec = json!({"PV": {"k": self.cur_case, "key": key, "detail": detail, "case": case}});
+        let l = rec.to_string();
+        self.emit(&l);
+    }
+
     /// how often this key was reported already in this worker
     pub fn seen(&self, key: &str) -> u64 {
         self.seen_sigs.get(key).copied().unwrap_or(0)
